@@ -23,9 +23,9 @@ U == 0..(C.g.nT - 1)
 (* an empty set derives nothing (the implementation's %empty rule for it is reported under C13)                    *)
 GN == [C.g EXCEPT !.rules = SelectSeq(C.g.rules, LAMBDA r : ~(r.lhs = C.ssym /\ Len(r.rhs) = 0))]
 Extra(e, g) == { a.s : a \in { a \in AtomsOf(e) : a.s >= g.nT } }
-RG == ReachX(GN, C.start, C.ssym, Extra(C.sx, GN))
+RG == ReachAll(GN, {C.start}, C.ssym, Extra(C.sx, GN), C.laHosts)
 Usable == Rec /\ C.usable
-Self == SelfCompl(C.g0, C.start0, C.ssym0, C.sx0) \/ NamedSelfCompl(C.sets)
+Self == SelfCompl(C.g0, C.start0, C.ssym0, C.sx0, C.laHosts) \/ NamedSelfCompl(C.sets)
 (* a complement that depends on itself is rejected - and only then *)
 SelfComplementRejected == Usable => (Self <=> C.complErr)
 NoOtherError == (Usable /\ ~Self) => C.err = ""
